@@ -3,7 +3,7 @@ _COMMON_TB = [
     'axioms: none (Print Assumptions: closed under the global context)',
     'correspondence harness harness/evmexec.go + harness/asm.go (hand-assembled generic script contract, call-tree '
     'encoder, tracer that records which frames failed, reference accounting, metamorphic oracle) + vlib/core.py',
-    'modelled, not verified: go-ethereum interpreter (only CALL/SSTORE/LOG/BALANCE/REVERT/SELFDESTRUCT of the script contract are used), '
+    'modelled, not verified: go-ethereum interpreter (only CALL/SSTORE/LOG/BALANCE/REVERT/SELFDESTRUCT/CREATE of the script contract are used; constructors run scripts through a DELEGATECALL into a library copy of the interpreter), '
     'SDK staking/distribution/authz/bank keepers (their effect on balances, delegations, rewards, withdraw address, grants is '
     'transcribed in Evm/ExecModel.v and sampled), the ICS-20 precompile is exercised with transfer of the bond denomination over one open channel (escrow; transfer grants; no relaying), the bank / werc20 precompiles and redelegate / cancelUnbondingDelegation are not exercised by this driver, gas is not modelled '
     '(gas price 0, ample gas limit)',
@@ -21,7 +21,7 @@ P = {
     'rule': 'a case is a random setup (balances, delegations, allocated rewards, withdraw addresses, staking and ICS-20 transfer grants of the signer) '
             'plus one Ethereum transaction: either EOA -> staking/distribution/ICS-20 precompile or EOA -> script contract running a '
             'random call tree (depth <= 3) of SSTORE / LOG / BALANCE / CALL with value / precompile calls (delegate, undelegate, withdraw, setWithdrawAddress, '
-            'claimRewards, ICS-20 transfer) / SELFDESTRUCT (a fifth of the cases self-destruct-heavy: few contracts called repeatedly) / REVERT with catching and '
+            'claimRewards, ICS-20 transfer) / SELFDESTRUCT (a fifth of the cases self-destruct-heavy: few contracts called repeatedly) / CREATE with a scripted constructor (value, reverting, code-less, self-destructing constructors; CREATE addresses funded beforehand; a seventh of the cases creation-heavy) / zero-value calls to module accounts / REVERT with catching and '
             'propagating callers, executed by the real EvmKeeper.ApplyTransaction; non-trivial = the transaction succeeded; '
             'distinct = distinct (setup, program)',
     'trusted_base': _COMMON_TB,
